@@ -163,6 +163,8 @@ def run(ck):
     clash = S.build_cases(ck, nvl, [ck.seed * 7919 + i for i in range(m)], None, ['none'], 'k%d' % ck.seed, genf=S.clash_program)
     cfg2 = S.stream_cfg(openk, clash=True)
     clash += S.build_cases(ck, nvl, [ck.seed * 104729 + i for i in range(m // 2)], cfg2, ['none'], 'e%d' % ck.seed)
+    for c in clash:
+        c.timeout = 12
     S.run_models(nv3, nvl, clash)
     S.run_real(b, clash, 'c03k', want_native=False)
     for c in clash:
